@@ -9,6 +9,7 @@ import TantivyModel.Proofs.AggCompTrim
 import TantivyModel.Proofs.AggKeyOrder
 import TantivyModel.Proofs.AggKeyDesc
 import TantivyModel.Proofs.AggEvict
+import TantivyModel.Proofs.AggSingle
 /-!
 # C14 — Aggregations equal a direct computation and do not depend on partitioning
 
@@ -227,6 +228,26 @@ theorem C14_terms_error_bound (p : TermsP) (sub : Req) (parts : List (List Doc))
   rw [e]
   exact terms_error_bound p sub parts U hU hcov
 
+/-- the same bounds for the COMPLETE segment model (`collectSegFull`: terms cut and composite
+eviction at every composite node below) — no no-truncation guard: eviction below a terms node
+changes neither its doc counts nor `sum_other_doc_count` nor the error bound -/
+theorem C14_terms_error_bound_full_model (p : TermsP) (sub : Req) (parts : List (List Doc)) (U : List Int)
+    (hU : U.Nodup) (hcov : ∀ part ∈ parts, ∀ d ∈ part, ∀ k ∈ termKeys p d, k ∈ U) :
+    let H : TermsI (Inter M sub) := mergeFruits (.terms p sub) (parts.map (collectSegFull (.terms p sub)))
+    let true_ := fun k => (parts.flatten.filter (fun d => (termKeys p d).contains k)).length
+    (∀ k, cnt H.map k ≤ true_ k)
+      ∧ (p.order = .countDesc → ∀ k, true_ k ≤ cnt H.map k + H.err)
+      ∧ sumOver U (cnt H.map) + H.other = sumOver U true_ := by
+  intro H true_
+  have hb : SameBooks H (mergedTerms (M := M) p sub parts) := by
+    show SameBooks (mergeFruits (.terms p sub) (parts.map (collectSegFull (.terms p sub)))) _
+    rw [C14_mergeFruits_eq_fold]
+    exact sameBooks_foldl p sub _ _ (sameBooks_full p sub) parts _ _ ⟨fun _ => rfl, rfl, rfl⟩
+  obtain ⟨b1, b2, b3⟩ := terms_error_bound (M := M) p sub parts U hU hcov
+  refine ⟨fun k => by rw [hb.1 k]; exact b1 k, fun ho k => by rw [hb.1 k, hb.2.2]; exact b2 ho k, ?_⟩
+  rw [sumOver_congr U _ _ (fun k _ => hb.1 k), hb.2.1]
+  exact b3
+
 /-- **One segment: the cut to `segment_size` is invisible in what is shown.**  For every order of
 the request (`_count` ascending / descending, `_key` ascending / descending) and every
 `size ≤ segment_size` (guaranteed by the request defaults, `C14_segment_size_ge_size`) the
@@ -303,6 +324,66 @@ theorem C14_terms_key_order_exact_any_schedule (p : TermsP) (sub : Req)
   · exact ⟨C14_terms_key_asc_exact_under_truncation p sub ho hsz hmdc hsub parts,
       C14_terms_key_asc_other_exact_under_truncation p sub ho hsz hmdc hsub parts⟩
   · exact C14_terms_key_desc_exact_under_truncation p sub ho hsz hmdc hsub parts
+
+/-- **Exactness from the top buckets** (any order): whenever the first `size` buckets in request
+order of the merged truncated segments are those of the untruncated collection, the FINAL buckets
+(keys, counts, sub-results) and `sum_other_doc_count` are those of the direct computation — the
+cut counts are conserved in `sum_other_doc_count`.  The key-order theorems and the single-segment
+theorem below are its instances. -/
+theorem C14_terms_exact_from_top_buckets (p : TermsP) (sub : Req) (hmdc : p.minDocCount ≤ 1)
+    (hsub : sub.cutFree = true) (parts : List (List Doc))
+    (htop : (sortBuckets p.order (mergeFruits (M := M) (.terms p sub) (parts.map (collectSeg (.terms p sub)))).map.entries).take p.size
+      = (sortBuckets p.order (collect (M := M) (.terms p sub) parts.flatten).map.entries).take p.size) :
+    (finalize (M := M) (.terms p sub) (mergeFruits (.terms p sub) (parts.map (collectSeg (.terms p sub))))).1
+        = (evalAggPV M (.terms p sub) parts.flatten).1
+      ∧ (finalize (M := M) (.terms p sub) (mergeFruits (.terms p sub) (parts.map (collectSeg (.terms p sub))))).2.1
+        = (evalAggPV M (.terms p sub) parts.flatten).2.1 := by
+  rw [C14_mergeFruits_eq_fold] at htop ⊢
+  have h := terms_exact_of_top (M := M) p sub hmdc (harvest_of_cutFree sub hsub) parts htop
+  unfold mergedTerms at h
+  rw [h.1, h.2, finalize_collect_pv]
+  exact ⟨rfl, rfl⟩
+
+/-- **One data-bearing segment: exact for EVERY order** (`_count` descending / ascending, `_key`)
+and every merge schedule that merges its fruit with any number of empty fruits (segments without
+matching documents, `empty_from_req` placeholders): final buckets and `sum_other_doc_count` are
+the direct computation although the segment was cut to `segment_size` buckets (finalize-level
+form of `C14_single_segment_cut_exact`). -/
+theorem C14_terms_single_segment_exact_any_schedule (p : TermsP) (sub : Req) (hsz : p.size ≤ p.segSize)
+    (hmdc : p.minDocCount ≤ 1) (hsub : sub.cutFree = true) (part : List Doc) (n : Nat)
+    (t : MTree (TermsI (Inter M sub)))
+    (hleaves : t.leaves.Perm (collectSeg (M := M) (.terms p sub) part :: List.replicate n (empty (.terms p sub)))) :
+    (finalize (M := M) (.terms p sub) (t.eval (merge (.terms p sub)) (empty (.terms p sub)))).1
+        = (evalAggPV M (.terms p sub) part).1
+      ∧ (finalize (M := M) (.terms p sub) (t.eval (merge (.terms p sub)) (empty (.terms p sub)))).2.1
+        = (evalAggPV M (.terms p sub) part).2.1 := by
+  have e : t.eval (merge (.terms p sub)) (empty (.terms p sub)) = collectSeg (M := M) (.terms p sub) part := by
+    rw [MTree.eval_eq_fold (merge (.terms p sub)) (empty (.terms p sub)) (merge_assoc _) (merge_comm _) (empty_merge _),
+      foldl_op_perm (merge (.terms p sub)) (empty (.terms p sub)) (merge_assoc _) (merge_comm _) (empty_merge _) hleaves]
+    show (List.replicate n (empty (.terms p sub))).foldl (merge (.terms p sub))
+      (merge (.terms p sub) (empty (.terms p sub)) (collectSeg (.terms p sub) part)) = _
+    rw [empty_merge, foldl_merge_replicate_empty]
+  have h := terms_single_segment_exact (M := M) p sub hsz hmdc (harvest_of_cutFree sub hsub) part
+  rw [e, h.1, h.2, finalize_collect_pv]
+  exact ⟨rfl, rfl⟩
+
+/-- **The request tree decomposes.**  Several top-level aggregations are collected, cut, merged and
+finalised independently, and a filter parent hands its sub-request the matching documents of every
+segment: the final result of `both a b` is the pair of the final results of `a` and `b`, the final
+result of `filter{sub}` is the total match count and the final result of `sub` over the filtered
+partition.  Hence every single-node theorem (bounds, `_key`-order exactness, single-segment
+exactness, composite eviction) applies to each top-level node of a request and below filters. -/
+theorem C14_request_tree_decomposes (a b : Req) (f : Field) (v : Int) (sub : Req) (parts : List (List Doc)) :
+    finalize (M := M) (.both a b) (mergeFruits (.both a b) (parts.map (collectSeg (.both a b))))
+        = (finalize a (mergeFruits a (parts.map (collectSeg a))), finalize b (mergeFruits b (parts.map (collectSeg b))))
+      ∧ finalize (M := M) (.filter f v sub) (mergeFruits (.filter f v sub) (parts.map (collectSeg (.filter f v sub))))
+        = ((parts.map (fun q => (q.filter (filterMatch f v)).length)).foldl (· + ·) 0,
+           finalize sub (mergeFruits sub ((parts.map (fun q => q.filter (filterMatch f v))).map (collectSeg sub)))) := by
+  constructor
+  · rw [C14_mergeFruits_eq_fold, C14_mergeFruits_eq_fold, C14_mergeFruits_eq_fold, fold_both]
+    rfl
+  · rw [C14_mergeFruits_eq_fold, C14_mergeFruits_eq_fold, fold_filter]
+    rfl
 
 /-- the hypothesis `min_doc_count ≤ 1` of the two theorems above is needed: the cut happens before the
 `min_doc_count` filter.  Segment 1 holds keys 1 (one document) and 2 (two documents) and keeps key 1
@@ -537,6 +618,46 @@ theorem C14_full_segment_model_exact (r : Req) (parts : List (List Doc)) (t : MT
   rw [hseg] at hleaves
   exact C14_composite_eviction_invisible_any_schedule r parts t hleaves
 
+/-- **Eviction is invisible on top of ANY terms truncation — no guard.**  For every request tree,
+every partition and every merge schedule the complete segment model (`collectSegFull`: terms cut
+and composite eviction everywhere) has the final result of the cut-only model (`collectSeg`).
+Hence every statement about the cut-only model — the bounds of `C14_terms_error_bound`, the
+exactness for `_key` order, for one data-bearing segment, from the top buckets — holds verbatim
+for the complete model. -/
+theorem C14_full_model_eq_cut_model (r : Req) (parts : List (List Doc)) (t : MTree (Inter M r))
+    (hleaves : t.leaves.Perm (parts.map (collectSegFull (M := M) r))) :
+    finalize r (t.eval (merge r) (empty r)) = finalize r (mergeFruits r (parts.map (collectSeg r))) := by
+  rw [MTree.eval_eq_fold (merge r) (empty r) (merge_assoc r) (merge_comm r) (empty_merge r),
+    foldl_op_perm (merge r) (empty r) (merge_assoc r) (merge_comm r) (empty_merge r) hleaves,
+    C14_mergeFruits_eq_fold]
+  exact full_eq_cut r parts
+
+/-- corollary: the complete model with a `_key`-ordered terms node on top (composites, histograms,
+ranges, filters, metrics below) is exact under truncation for every merge schedule — and all
+hypotheses but the order and the shape of the sub-request are DERIVED from the request defaults of
+the source (`TermsP.ofRequest`: `segment_size ≥ size`, default `min_doc_count = 1`). -/
+theorem C14_terms_key_order_exact_full_model_request_defaults (field : Field) (missing : Option Int)
+    (size segSize : Option Nat) (ord : Order) (ho : ord = .keyAsc ∨ ord = .keyDesc) (sub : Req)
+    (hsub : sub.cutFree = true) (parts : List (List Doc))
+    (t : MTree (Inter M (.terms (TermsP.ofRequest field missing size segSize Option.none (some ord)) sub)))
+    (hleaves : t.leaves.Perm (parts.map (collectSegFull (M := M)
+      (.terms (TermsP.ofRequest field missing size segSize Option.none (some ord)) sub)))) :
+    let r := Req.terms (TermsP.ofRequest field missing size segSize Option.none (some ord)) sub
+    (finalize (M := M) r (t.eval (merge r) (empty r))).1 = (evalAggPV M r parts.flatten).1
+      ∧ (finalize (M := M) r (t.eval (merge r) (empty r))).2.1 = (evalAggPV M r parts.flatten).2.1 := by
+  intro r
+  have hsz := C14_segment_size_ge_size field missing size segSize Option.none (some ord)
+  have hmdc : (TermsP.ofRequest field missing size segSize Option.none (some ord)).minDocCount ≤ 1 := by
+    show Gen.AGG_TERMS_DEFAULT_MIN_DOC_COUNT ≤ 1
+    decide
+  have ho' : (TermsP.ofRequest field missing size segSize Option.none (some ord)).order = .keyAsc
+      ∨ (TermsP.ofRequest field missing size segSize Option.none (some ord)).order = .keyDesc := ho
+  rw [C14_full_model_eq_cut_model r parts t hleaves]
+  rcases ho' with h | h
+  · exact ⟨C14_terms_key_asc_exact_under_truncation _ sub h hsz hmdc hsub parts,
+      C14_terms_key_asc_other_exact_under_truncation _ sub h hsz hmdc hsub parts⟩
+  · exact C14_terms_key_desc_exact_under_truncation _ sub h hsz hmdc hsub parts
+
 /-- the observational core: an evicted fruit behaves like the original one in every merge -/
 theorem C14_evict_observationally_equal (r : Req) (x z : Inter M r) (hx : WS r x) (hz : WS r z) :
     finalize r (merge r (evict r x) z) = finalize r (merge r x z) :=
@@ -746,6 +867,45 @@ example : @Eq (List (Int × Nat × List (Int × Nat × Unit)) × Nat × Nat) (fi
           [[(1, [7]), (0, [3])], [(1, [7]), (0, [1])]]))
         (.leaf (collectSegFull (M := Int) (.terms ⟨1, Option.none, 10, 10, 1, .keyAsc⟩ (.composite [⟨0, 9, false⟩] 1 Option.none .none))
           [[(1, [7]), (0, [2])], [(1, [7]), (0, [0])]]))).eval (merge _) (empty _))) ([(7, 4, [(0, 1, ())])], 0, 0) := by decide +kernel
+/-- one segment with keys 1 (×1), 2 (×2), 3 (×1) cut to 2 buckets by `_count` descending, merged with an empty fruit:
+the shown bucket and the 2 other occurrences are exact, the error bound 1 is the first cut count -/
+example : finalize (M := Int) (.terms ⟨0, Option.none, 1, 2, 1, .countDesc⟩ .none)
+    ((MTree.node (.leaf (empty (.terms ⟨0, Option.none, 1, 2, 1, .countDesc⟩ .none)))
+        (.leaf (collectSeg (M := Int) (.terms ⟨0, Option.none, 1, 2, 1, .countDesc⟩ .none)
+          [[(0, [1])], [(0, [2])], [(0, [2])], [(0, [3])]]))).eval
+      (merge (.terms ⟨0, Option.none, 1, 2, 1, .countDesc⟩ .none)) (empty _)) = ([(2, 2, ())], 2, 1) := by decide +kernel
+/-- the hypothesis of `C14_terms_exact_from_top_buckets` on two cut segments ordered by `_count`: keys {1×1, 2×2} and {2×1, 3×1},
+each cut to one bucket; the top bucket of the merged cut fruits is the true top bucket (key 2, three documents) -/
+example : (sortBuckets .countDesc (mergeFruits (M := Int) (.terms ⟨0, Option.none, 1, 1, 1, .countDesc⟩ .none)
+      ([[[(0, [2])], [(0, [2])], [(0, [1])]], [[(0, [2])], [(0, [3])]]].map
+        (collectSeg (M := Int) (.terms ⟨0, Option.none, 1, 1, 1, .countDesc⟩ .none)))).map.entries).take 1
+    = (sortBuckets .countDesc (collect (M := Int) (.terms ⟨0, Option.none, 1, 1, 1, .countDesc⟩ .none)
+        [[(0, [2])], [(0, [2])], [(0, [1])], [(0, [2])], [(0, [3])]]).map.entries).take 1 := by decide +kernel
+set_option synthInstance.maxSize 1024 in
+/-- complete segment model with a cut terms node (segment_size 1, `_count` descending) above a composite (page size 1):
+two segments; the books (bucket 7 ×2 shown, 1 + 1 cut + 1 beyond size = 3 others, error bound 1 + 1) are those of the cut-only model -/
+example : @Eq (List (Int × Nat × List (Int × Nat × Unit)) × Nat × Nat)
+    (finalize (M := Int) (.terms ⟨1, Option.none, 1, 1, 1, .countDesc⟩ (.composite [⟨0, 9, false⟩] 1 Option.none .none))
+      (mergeFruits (.terms ⟨1, Option.none, 1, 1, 1, .countDesc⟩ (.composite [⟨0, 9, false⟩] 1 Option.none .none))
+        ([[[(1, [7]), (0, [3])], [(1, [7]), (0, [1])], [(1, [8]), (0, [1])]], [[(1, [8]), (0, [2])], [(1, [9]), (0, [0])]]].map
+          (collectSegFull (M := Int) (.terms ⟨1, Option.none, 1, 1, 1, .countDesc⟩ (.composite [⟨0, 9, false⟩] 1 Option.none .none))))))
+    ([(7, 2, [(1, 1, ())])], 3, 2) := by decide +kernel
+set_option synthInstance.maxSize 1024 in
+/-- complete model, request `terms(size 1, shard_size 1, order _key asc){composite(size 1)}` built by `TermsP.ofRequest`:
+two cut and evicted segments (keys {7,8} and {7,9}); bucket 7 with 3 documents and its composite page are exact, 2 others -/
+example : @Eq (List (Int × Nat × List (Int × Nat × Unit)) × Nat × Nat)
+    (finalize (M := Int) (.terms (TermsP.ofRequest 1 Option.none (some 1) (some 1) Option.none (some .keyAsc)) (.composite [⟨0, 9, false⟩] 1 Option.none .none))
+      ((MTree.node
+        (.leaf (collectSegFull (M := Int) (.terms (TermsP.ofRequest 1 Option.none (some 1) (some 1) Option.none (some .keyAsc)) (.composite [⟨0, 9, false⟩] 1 Option.none .none))
+          [[(1, [7]), (0, [3])], [(1, [7]), (0, [1])], [(1, [8]), (0, [1])]]))
+        (.leaf (collectSegFull (M := Int) (.terms (TermsP.ofRequest 1 Option.none (some 1) (some 1) Option.none (some .keyAsc)) (.composite [⟨0, 9, false⟩] 1 Option.none .none))
+          [[(1, [7]), (0, [2])], [(1, [9]), (0, [0])]]))).eval (merge _) (empty _)))
+    ([(7, 3, [(1, 1, ())])], 2, 2) := by decide +kernel
+/-- two top-level nodes (a cut `_key`-ordered terms and a filter) over two segments: each is finalised on its own -/
+example : finalize (M := Int) (.both (.terms ⟨0, Option.none, 1, 1, 1, .keyAsc⟩ .none) (.filter 0 1 .none))
+    (mergeFruits _ ([[[(0, [3])], [(0, [1])]], [[(0, [2])], [(0, [1])]]].map
+      (collectSeg (M := Int) (.both (.terms ⟨0, Option.none, 1, 1, 1, .keyAsc⟩ .none) (.filter 0 1 .none)))))
+    = (([(1, 2, ())], 2, 2), (2, ())) := by decide +kernel
 example : (compTrim 1 Option.none (compTrim 2 Option.none (KMap.merge (fun a _ => a) (KMap.single 3 (1, ()))
     (KMap.merge (fun a _ => a) (KMap.single 1 (1, ())) (KMap.single 2 (1, ())))))).entries = [(1, 1, ())] := by decide +kernel
 example : [0, 10, 20].Pairwise (fun a b : Int => a < b) := by decide
